@@ -92,5 +92,6 @@ def run(ctx):
                 "addition: it never moves back.")
     nm = efreelist.check_allocation_mark(ctx, F)
     ctx.floor("E-FREELIST.mark", "writers of the allocation mark", nm, 1)
+    ecanon.check_id_split(ctx, F)
     ctx.not_decided = ("exactness of counts over histories; the unsafe internals of the managers; "
                        "capacity restoration after gc")
